@@ -484,6 +484,20 @@ def gen(rng, tier, i):
     if 'o' in w.order: p.cycle(send(0, 'do call /g/o warm\r\n'))
     j = p.cycle(send(0, 'do call /g/m main\r\n'))
     p.opt('c18_cycle', j)
+    # a global variable whose initialiser fails (in the program file or in a header it includes): the error is raised while the
+    # object is loaded, by code that the compiler assembles apart from the functions
+    if rng.random() < 0.5:
+        pad1 = rng.randint(0, 30); pad2 = rng.randint(0, 12); inh = rng.random() < 0.4
+        body = 'int gz() { return 0; }\n' + '// pad\n' * pad2 + 'int ga = 5;\nmixed gb = ({ 1, 2 })[gz() + %d];\nint gc = 7;\n' % rng.choice((2, 5))
+        line_in_body = 1 + pad2 + 2
+        if inh:
+            p.file('g/gih.h', body)
+            p.file('g/gi.c', '\n' * pad1 + '#include "/g/gih.h"\nvoid create() { }\n')
+            p.meta['gi'] = ['g/gih.h', line_in_body]
+        else:
+            p.file('g/gi.c', '\n' * pad1 + body + 'void create() { }\n')
+            p.meta['gi'] = ['g/gi.c', pad1 + line_in_body]
+        p.cycle(send(0, 'do comp gi /g/gi\r\n'))
     p.idle(1)
     p.meta['segs'] = w.segs
     p.meta['scen'] = i
@@ -539,6 +553,14 @@ def check_base(plan, res):
     got = _markers(res)
     errs = [e.rest for e in res.events if e.kind == 'R' and e.rest.startswith('LOGERR ')]
     nat = [parse_err(e.rest) for e in res.events if e.kind == 'R' and e.rest.startswith('ERR ')]
+    gie = [x for x in nat if x and x['program'] == 'g/gi.c']
+    nat = [x for x in nat if not (x and (x['program'] == 'g/gi.c' or 'g/gi' in x['msg']))]
+    if plan.meta.get('gi'):
+        gf, gl = plan.meta['gi']
+        if not gie:
+            v.append(Violation(PROP, 'no-report', 'the failing initialiser of a global variable in %s:%d was never reported' % (gf, gl), PROP + '/natural/initialiser-unreported'))
+        elif gie[0]['file'] != gf or gie[0]['line'] != gl:
+            v.append(Violation(PROP, 'line', 'runtime error raised by the initialiser of a global variable at %s:%d is reported at %s:%d' % (gf, gl, gie[0]['file'], gie[0]['line']), PROP + '/natural/initialiser-line'))
     if errs:
         v.append(Violation(PROP, 'harness', 'the generated program does not compile cleanly: %s' % errs[0][:300], PROP + '/harness/program-error'))
     elif got != want:
